@@ -2007,7 +2007,7 @@ def cli_stubs():
         'worldcoin/gnark-mbu/server.Run': lambda ex, st, a, c: (st.events.append(('api', 'server.Run', 'ok', ())) or Struct([Chan(new_oid()), Chan(new_oid())])),
         '(*worldcoin/gnark-mbu/server.RunningJob).RequestStop': lambda ex, st, a, c: st.events.append(('api', 'RequestStop', 'ok', ())),
         '(*worldcoin/gnark-mbu/server.RunningJob).AwaitStop': lambda ex, st, a, c: st.events.append(('api', 'AwaitStop', 'ok', ())),
-        'os/signal.Notify': signal_Notify, 'time.Now': lambda ex, st, a, c: Opaque('time'), 'time.Since': lambda ex, st, a, c: bvval(0, 64),
+         'time.Now': lambda ex, st, a, c: Opaque('time'), 'time.Since': lambda ex, st, a, c: bvval(0, 64),
         'worldcoin/gnark-mbu/logging.SetJSONOutput': lambda ex, st, a, c: None,
         'worldcoin/gnark-mbu/poseidon_tree.NewTree': lambda ex, st, a, c: Struct([Iface(-2, Opaque('tree'))]),
         '(*worldcoin/gnark-mbu/poseidon_tree.PoseidonTree).Root': lambda ex, st, a, c: Big(z3.BitVec(ex.newsym('root'), BIG)),
@@ -2368,3 +2368,39 @@ def i_run_shutdown_hooks(ex, st, args, ctx):
 
 
 INTRINSICS.update({'verifRunShutdownHooks': i_run_shutdown_hooks})
+
+
+# ------------------------------------------------------------------------------------------ os/signal subscriptions (C14: the command-line server)
+def signal_NotifyContext(ex, st, args, ctx):
+    used('os/signal.NotifyContext: the context is done when one of the signals arrives; calling the returned stop function (or signal.Stop/Reset) restores the default disposition, after which SIGINT terminates the process')
+    st.events.append(('api', 'signal.Subscribe', 'ok', ()))
+    ch = Chan(new_oid())
+    st.heap[('chanbuf', ch.cid)] = ((), 1)
+    st.heap[('chanext', ch.cid)] = True
+    return (Opaque('context', ctxkind='signal', done=ch), Func('verif:signal_stop'))
+
+
+def signal_unsubscribe(ex, st, args, ctx):
+    st.events.append(('api', 'signal.Unsubscribe', 'ok', ()))
+    return None
+
+
+def context_Done(ex, st, args, ctx):
+    c = args[0].v if isinstance(args[0], Iface) else args[0]
+    ch = getattr(c, 'done', None)
+    if ch is None:
+        ch = Chan(new_oid())          # a context that is never cancelled: receiving from it blocks forever
+        st.heap[('chanbuf', ch.cid)] = ((), 1)
+    return ch
+
+
+_old_notify = signal_Notify
+
+
+def signal_Notify2(ex, st, args, ctx):
+    st.events.append(('api', 'signal.Subscribe', 'ok', ()))
+    return _old_notify(ex, st, args, ctx)
+
+
+BASE.update({'os/signal.NotifyContext': signal_NotifyContext, 'verif:signal_stop': signal_unsubscribe, 'os/signal.Stop': signal_unsubscribe, 'os/signal.Reset': signal_unsubscribe,
+             'os/signal.Ignore': signal_unsubscribe, 'opaque:context.Done': context_Done, 'os/signal.Notify': signal_Notify2})
